@@ -301,6 +301,25 @@ Proof.
   rewrite !expect_bind. cbn [bernoulli expect]. rewrite !expect_bind. cbn [bernoulli expect andb negb].
   rewrite !expect_ret, !expect_bind_ret. cbn [app]. ring.
 Qed.
+(* addition rate 0 and deletion rate 0: the identity (and an empty parent with empty-genome addition rate 0 stays empty) *)
+Lemma block_identity x (h : list G -> Q) : expect (block gen 0 0 x) h == h [x].
+Proof.
+  unfold block. rewrite expect_bind. cbn [bernoulli expect].
+  rewrite !expect_bind. cbn [bernoulli expect]. rewrite !expect_bind. cbn [bernoulli expect andb negb].
+  rewrite !expect_ret. ring.
+Qed.
+Theorem umad_rate_0 g P : prob (umad_loop gen 0 0 g) P == if P g then 1 else 0.
+Proof.
+  revert P. induction g as [|x t IH]; intros P; cbn [umad_loop]; [apply prob_ret|].
+  rewrite prob_bind, block_identity, prob_bind_ret. cbn [app]. apply IH.
+Qed.
+Theorem umad_rate_0_any_parent e g P : (e = None \/ e = Some 0) -> prob (umad gen 0 0 e g) P == if P g then 1 else 0.
+Proof.
+  intros He. destruct g as [|x t].
+  - destruct He as [-> | ->]; cbn [umad umad_loop]; [apply prob_ret|].
+    rewrite prob_bind. cbn [bernoulli expect]. rewrite prob_ret. ring.
+  - destruct e; apply umad_rate_0.
+Qed.
 Fixpoint interleaved (g news c : list G) : Prop :=
   match g, news with
   | [], [] => c = []
